@@ -354,3 +354,24 @@ prop("C04",
      assumptions=["source data never uses the tool's checkpoint key name",
                   "SELECT does not occur inside a source MULTI block",
                   "a cut before the first checkpoint leads to a full sync (outside this property)"])
+
+prop("C16",
+     title="Scan-based migration (rump) copies every scanned key faithfully",
+     timing=True,
+     quick=[{"re": "^TestC16$", "checks": 6, "shards": 3, "timeout": 600},
+            {"re": "^TestC16KeyFile$", "checks": 4, "timeout": 600}],
+     thorough=[{"re": "^TestC16$", "checks": 600, "shards": 12, "timeout": 1700},
+               {"re": "^TestC16KeyFile$", "checks": 300, "shards": 3, "timeout": 1700}],
+     rule="one rapid case = one configuration and a batch of 8-20 executors run concurrently (QoS bucket and status ticker cost ~2 s per executor): model "
+          "source keyspaces over 1-4 dbs (0..15), per db 1..2N keys (N = scan.key_number in {1,2,3,5,50}; counts N-1, N, N+1, 2N), values in every "
+          "encoding with real DUMP payloads, PTTL none or positive, a SCAN script (any cursor sequence, empty pages, trailing empty page, page sizes "
+          "1,2,N,N+3,all), keys vanishing between SCAN and DUMP or between DUMP and PTTL, big_key_threshold in {1,30,60,500MB} (so payloads fall on both "
+          "sides), key_exists in {none,rewrite} with pre-existing target keys under rewrite, target.db in {-1,0,4}, db and key filters; key-file mode: one "
+          "db, lines incl. multiples of the page size. Real dbRumperExecutor.exec with real redigo connections to model source and target. Oracle: the "
+          "executor returns (12 s limit; an abort on any of its goroutines is reported as such); every key that passes the filters and did not vanish is in "
+          "the same db (or target.db) with the source value and ttl == the PTTL the source reported (none stays none); vanished/filtered keys absent; "
+          "nothing else written. Non-trivial: >=2 dbs, an empty page and a vanished key. Distinct = hash of (configuration, script).",
+     technique="property-based testing (rapid) with scripted model source (SCAN pagination adversary, vanish events) and model target; model-based oracle over the target keyspace; batched instances",
+     level_text="Generated keyspaces x paginations x fault points against the real three-goroutine pipeline; about a hundred executors per quick run.",
+     level_note="Trusted: harness/mredis, the SCAN/DUMP/PTTL script hook. SCAN duplicates and keys re-created between DUMP and PTTL are outside the stated domain. Pre-existing keys only under rewrite (under none a busy key aborts the run, which is a report, not a copy).",
+     assumptions=["no duplicate keys across SCAN pages", "keys in a key file contain no line breaks"])
